@@ -217,6 +217,17 @@ def _one(R, rng, i):
     if mmap:
         conv_opts.append("--mmap")
 
+    # an earlier generation of the dataset, stored in the OTHER form (plain vs .gz) in the same destination:
+    # the conversion below must replace it, whatever the readers probe first
+    if not storage.startswith("sharded") and layout != "rgb" and rng.random() < 0.3:
+        old_data = (data ^ 1) if data.dtype.kind in "ui" else (data + 1).astype(data.dtype)
+        nii_old = os.path.join(d, "old.nii")
+        pipeline.write_nifti(nii_old, old_data, affine=np.diag(list(vox) + [1.0]), slope=slope, inter=inter)
+        pre_opts = [o for o in conv_opts if o != "--no-gzip"] + ([] if "--no-gzip" in conv_opts else ["--no-gzip"])
+        rc0, _so, _se = pipeline.run_script("volume_to_precomputed", pre_opts + [nii_old, out], inprocess=True)
+        R.count("destination:holds-an-older-generation-in-the-other-form" + ("" if rc0 == 0 else ":pre-run-failed"))
+        case["older_generation_in_other_form"] = True
+
     # observe the write_chunk calls (in-process runs only) for the model correspondence
     writes = []
     sharded = storage.startswith("sharded")
